@@ -24,9 +24,14 @@ import (
 )
 
 type refOut struct {
-	data    *JV // nil: a field error propagates out of this position
-	all     []ObsErr
-	req     []ObsErr
+	data *JV // nil: a field error propagates out of this position
+	all  []ObsErr
+	req  []ObsErr
+	// prop: when data is nil, the errors one of which propagates out of this position (which one
+	// depends on the order of evaluation); groups: for every failure-null visible in data, the errors one
+	// of which must explain it. Used for runs whose evaluation order is not the synchronous one.
+	prop    []ObsErr
+	groups  [][]ObsErr
 	undef   bool
 	crossed int // non-null positions a failure propagated through (for the non-triviality rule)
 	nulled  int // nullable positions that absorbed a failure
@@ -36,9 +41,11 @@ type RefResult struct {
 	RequestError bool
 	Data         string
 	All, Req     []ObsErr
-	Undef        bool
-	Crossed      int
-	Nulled       int
+	// Alts: per failure-null visible in data (or for null data), the alternative explaining errors
+	Alts    [][]ObsErr
+	Undef   bool
+	Crossed int
+	Nulled  int
 }
 
 type ref struct {
@@ -57,7 +64,9 @@ func refErr(class string, path []interface{}, locs ...[2]int) ObsErr {
 	return e
 }
 
-func fail(e ObsErr) refOut { return refOut{all: []ObsErr{e}, req: []ObsErr{e}} }
+func fail(e ObsErr) refOut {
+	return refOut{all: []ObsErr{e}, req: []ObsErr{e}, prop: []ObsErr{e}}
+}
 
 func done(v *JV) refOut { return refOut{data: v} }
 
@@ -109,7 +118,10 @@ func RunRef(b *gqlgen.Built, doc *ast.Document, opName string, coercedVars map[s
 		return RefResult{RequestError: true}
 	}
 	out := r.executeSelectionSet(op.SelectionSet.Selections, root, world, nil)
-	res := RefResult{All: out.all, Req: out.req, Undef: out.undef, Crossed: out.crossed, Nulled: out.nulled, Data: "null"}
+	res := RefResult{All: out.all, Req: out.req, Undef: out.undef, Crossed: out.crossed, Nulled: out.nulled, Data: "null", Alts: out.groups}
+	if out.data == nil {
+		res.Alts = [][]ObsErr{out.prop}
+	}
 	if out.data != nil {
 		res.Data = out.data.Canon()
 	}
@@ -212,6 +224,8 @@ func atPosition(nonNull bool, o refOut) refOut {
 		} else {
 			o.data = jvNull()
 			o.nulled++
+			o.groups = [][]ObsErr{o.prop}
+			o.prop = nil
 		}
 	}
 	return o
@@ -246,13 +260,16 @@ func (r *ref) executeSelectionSet(sels []ast.Selection, obj string, objVal *gqlg
 				c := fo
 				firstFail = &c
 			}
+			out.prop = append(out.prop, fo.prop...)
 			continue
 		}
 		out.req = append(out.req, fo.req...)
+		out.groups = append(out.groups, fo.groups...)
 		result.set(it.key, fo.data)
 	}
 	if firstFail != nil {
 		out.req = firstFail.req
+		out.groups = nil
 		return out
 	}
 	out.data = result
@@ -298,6 +315,8 @@ func (r *ref) completeValue(t gqlgen.TypeRef, fields []*ast.Field, v *gqlgen.Out
 			o.data = nil
 			o.all = append(o.all, e)
 			o.req = []ObsErr{e}
+			o.prop = []ObsErr{e}
+			o.groups = nil
 		}
 		return o
 	}
@@ -322,13 +341,16 @@ func (r *ref) completeValue(t gqlgen.TypeRef, fields []*ast.Field, v *gqlgen.Out
 					c := io
 					firstFail = &c
 				}
+				out.prop = append(out.prop, io.prop...)
 				continue
 			}
 			out.req = append(out.req, io.req...)
+			out.groups = append(out.groups, io.groups...)
 			arr.Arr = append(arr.Arr, io.data)
 		}
 		if firstFail != nil {
 			out.req = firstFail.req
+			out.groups = nil
 			return out
 		}
 		out.data = arr
